@@ -188,35 +188,46 @@ def r2_escaping(ctx):
         got = esc('plain text 01-A')
         ok = got == 'plain text 01-A'
         yield Ob('xmlwriter:XMLWriter.%s leaves other text alone' % meth, ok, ctx.floc(f), '' if ok else 'plain text is written as %r' % (got,))
-    # attribute template quote char
+    # what push / elem write, decided by constant propagation with marker oracles for the two escape functions: the
+    # opening tag, every attribute as  name='<escaped value>'  (the quote _escape_attr covers), for elem the escaped
+    # content and the closing tag of the same element
+    from ..absint import traces as _traces
     for meth in ('push', 'elem'):
         f = ctx.func('xmlwriter', 'XMLWriter.' + meth)
-        tm = [c for c in A.calls_in(f) if isinstance(c.func, ast.Attribute) and c.func.attr == 'format' and A.is_str(c.func.value) and '=' in c.func.value.value]
-        ok = len(tm) == 1
-        if ok:
-            t = tm[0].func.value.value
-            q = t[t.index('=') + 1]
-            okq = q == "'"
-            yield Ob('xmlwriter:XMLWriter.%s attribute quote is the one _escape_attr covers' % meth, okq, ctx.floc(f), '' if okq else 'template %r quotes with %r' % (t, q))
-            args = tm[0].args
-            okv = len(args) == 2 and isinstance(args[1], ast.Call) and A.call_target(args[1]) == ('self', '_escape_attr')
-            if len(args) == 2 and isinstance(args[1], ast.Name):
-                # the escaped value is held in a local first: every binding of it on the way is the escape of the attribute value
-                lp_ = A.enclosing(tm[0], (ast.For,))
-                defs = [n.value for n in ast.walk(lp_ if lp_ is not None else f) if isinstance(n, ast.Assign) and len(n.targets) == 1
-                        and path_of(n.targets[0]) == args[1].id]
-                okv = bool(defs) and all(isinstance(d, ast.Call) and A.call_target(d) == ('self', '_escape_attr') for d in defs)
-            yield Ob('xmlwriter:XMLWriter.%s attribute values pass _escape_attr' % meth, okv, ctx.floc(f), '' if okv else 'value argument %s' % norm(args[1]) if len(args) > 1 else 'template arguments changed')
+        funcs = {'self._escape_attr': lambda v: 'A(%s)' % (v,), 'self._escape_cont': lambda v: 'C(%s)' % (v,)}
+        env = {'self.stack': ('root',), 'self.indent': '', 'elem': 'E1', 'content': 'TXT', 'attrs': A.FrozenDict((('id', 'V1'), ('n', 'V2')))}
+        try:
+            res = _traces(ctx.cfg(f), env, lambda c: 'write' if A.call_target(c) in (('self', '_write'), ('self.out', 'write')) else None, funcs)
+        except NotClosedTest as e:
+            raise AnalysisError('XMLWriter.%s cannot be decided: %s' % (meth, e))
+        texts = set()
+        for tr, env_items in res:
+            if any(a_[0] == 'write' and not (a_[1] and isinstance(a_[1][0], str)) for a_ in tr):
+                raise AnalysisError('XMLWriter.%s: a written text is not determined by the arguments' % meth)
+            texts.add((''.join(a_[1][0] for a_ in tr if a_[0] == 'write'), dict(env_items).get('self.stack')))
+        if len(texts) != 1:
+            raise AnalysisError('XMLWriter.%s: %d outcomes' % (meth, len(texts)))
+        (text, stack), = texts
+        body = text.strip()
+        import re as _re
+        m_ = _re.fullmatch(r"<E1((?: [a-z]+=(['\"]).*?\2)*)>(.*)", body, _re.S)
+        attrs_txt = m_.group(1) if m_ else ''
+        quotes = set(_re.findall(r"=(['\"])", attrs_txt))
+        okq = bool(m_) and quotes == {"'"}
+        yield Ob('xmlwriter:XMLWriter.%s attribute quote is the one _escape_attr covers' % meth, okq, ctx.floc(f),
+                 '' if okq else '%s(E1, id=V1, n=V2) writes %r: attributes are not quoted with the apostrophe' % (meth, text))
+        okv = bool(m_) and attrs_txt == " id='A(V1)' n='A(V2)'"
+        yield Ob('xmlwriter:XMLWriter.%s attribute values pass _escape_attr' % meth, okv, ctx.floc(f),
+                 '' if okv else "%s(E1, id=V1, n=V2) writes %r, expected the attributes  id='<escaped V1>' n='<escaped V2>'" % (meth, text))
+        if meth == 'elem':
+            rest = m_.group(3) if m_ else ''
+            ok = rest.startswith('C(TXT)')
+            yield Ob('xmlwriter:XMLWriter.elem content passes _escape_cont', ok, ctx.floc(f), '' if ok else 'elem(E1, TXT) writes %r: the content is not the escaped text' % (text,))
+            ok = rest.endswith('</E1>') and rest.count('<') == 1 and stack == ('root',)
+            yield Ob('xmlwriter:XMLWriter.elem closes the element it opened', ok, ctx.floc(f), '' if ok else 'elem(E1, TXT) writes %r and leaves the stack %s' % (text, stack))
         else:
-            yield Ob('xmlwriter:XMLWriter.%s attribute template' % meth, False, ctx.floc(f), 'attribute template not recognised')
-    f = ctx.func('xmlwriter', 'XMLWriter.elem')
-    cont = [c for c in A.calls_in(f) if isinstance(c.func, ast.Attribute) and c.func.attr == 'format' and A.is_str(c.func.value) and '</' in c.func.value.value]
-    ok = len(cont) == 1 and isinstance(cont[0].args[0], ast.Call) and A.call_target(cont[0].args[0]) == ('self', '_escape_cont') \
-        and path_of(cont[0].args[0].args[0]) == 'content'
-    yield Ob('xmlwriter:XMLWriter.elem content passes _escape_cont', ok, ctx.floc(f), '' if ok else 'content is written raw')
-    # close tag = open tag
-    ok = len(cont) == 1 and path_of(cont[0].args[1]) == 'elem' and any(A.is_str(n) and n.value == '<' for n in ast.walk(f))
-    yield Ob('xmlwriter:XMLWriter.elem closes the element it opened', ok, ctx.floc(f), '' if ok else 'closing tag changed')
+            ok = bool(m_) and m_.group(3) == '' and stack == ('root', 'E1')
+            yield Ob('xmlwriter:XMLWriter.push opens the element and remembers it', ok, ctx.floc(f), '' if ok else 'push(E1) writes %r and leaves the stack %s' % (text, stack))
     f = ctx.func('xmlwriter', 'XMLWriter.pop')
     # decided by constant propagation through pop on the stack (a, b): the closing tag written is </b>, (a) stays open
     from ..absint import traces
@@ -457,6 +468,266 @@ def r9_trailers_regenerated_with_true_counts(ctx):
         yield o
 
 
+def r10_shared_tokenizer(ctx):
+    """the XML holds the segments the tokenizer yields: none is lost, cut or joined at a buffer boundary and only CR / LF
+    are stripped in front of a token (C01.R3 / C01.R5, shared) - the round trip can only return what was read."""
+    from . import c01
+    for fn in (c01.r3_tokenizer_exits, c01.r5_strip_set, c01.r11_reader_iteration):
+        for o in fn(ctx):
+            yield o
+
+class _XSegNode(object):
+    _sa_model = True
+
+    def __init__(self, first):
+        self.first = first
+        self.id = 'SEG'
+        self.usage = 'R'
+
+    def is_segment(self):
+        return True
+
+    def is_first_seg_in_loop(self):
+        return self.first
+
+    def get_child_count(self):
+        return 0
+
+    def __hash__(self):
+        return hash(('xsegnode', self.first))
+
+
+class _XLoop(object):
+    _sa_model = True
+
+    def __init__(self, path):
+        self.path = path
+        self.id = path[-1] if path else None
+
+    def get_path(self):
+        return '/' + '/'.join(self.path)
+
+    def __hash__(self):
+        return hash(('xloop', tuple(self.path)))
+
+
+class _XSegData(object):
+    _sa_model = True
+
+    def __len__(self):
+        return 0
+
+    def get_seg_id(self):
+        return 'SEG'
+
+    def __hash__(self):
+        return hash('xsegdata')
+
+
+def r11_loop_elements_spell_the_path(ctx):
+    """each segment is nested inside loop elements that spell exactly the map path of the node it matched, a repeated
+    loop opening a fresh element: x12xml_simple.seg decided by constant propagation over (path of the previous segment,
+    path of this one, first segment of its loop or not).  With c = the number of leading loops the two paths share -
+    one less when this segment starts a loop that is still open (its path is the previous path or a beginning of it) -
+    the writer closes the previous path's loops beyond c, innermost first, then opens this path's loops beyond c,
+    outermost first, each under its own id, and then the segment."""
+    import os as _os
+    from ..absint import traces, run_function, helper_oracles, NotClosedTest
+    fn = ctx.func('x12xml_simple', 'x12xml_simple.seg')
+    g = ctx.cfg(fn)
+    base = {}
+    for mod, cls in (('x12xml', 'x12xml'), ('x12xml_simple', 'x12xml_simple')):
+        for nm in ('_path_list', '_get_path_match_idx', '_get_loop_info', '_get_node_id', '_get_seg_info', '_get_comp_info', '_get_ele_info', '_get_subele_info'):
+            f_ = ctx.func(mod, cls + '.' + nm, required=False)
+            if f_ is not None:
+                def call(*a, _f=f_):
+                    return run_function(ctx.cfg(_f), _f, [None] + list(a), base)
+                base['self.' + nm] = call
+    base['commonprefix'] = base['os.path.commonprefix'] = lambda l: _os.path.commonprefix(list(l))
+    D5 = ('ISA_LOOP', 'GS_LOOP', 'ST_LOOP', 'DETAIL', '2000A')
+    CASES = [((), ('ISA_LOOP',), True), (('ISA_LOOP',), ('ISA_LOOP', 'GS_LOOP'), True), (D5, D5, False), (D5, D5, True),
+             (D5 + ('2010AA',), D5, False), (D5 + ('2010AA',), D5, True), (D5 + ('2010AA',), D5[:4] + ('2000B',), True),
+             (D5 + ('2010AA',), D5 + ('2010AB',), True), (D5 + ('2300', '2400'), D5[:2], False), (D5, D5[:4] + ('2000B', '2300'), True),
+             (D5 + ('2300', '2400'), D5 + ('2300',), True), (D5[:3] + ('HEADER',), D5[:4] + ('2000A',), True)]
+    bad = []
+    for last, cur, first in CASES:
+        funcs = helper_oracles(ctx, 'x12xml_simple', dict(base, pop_to_parent_loop=lambda n, cur=cur: _XLoop(cur)))
+
+        def key(c):
+            r, m = A.call_target(c)
+            return m if r == 'self.writer' and m in ('push', 'pop') else None
+        try:
+            res = traces(g, {'self.last_path': tuple(last), 'seg_node': _XSegNode(first), 'seg_data': _XSegData()}, key, funcs)
+        except NotClosedTest as e:
+            raise AnalysisError('x12xml_simple.seg cannot be decided (previous path %s, path %s): %s' % ('/'.join(last), '/'.join(cur), e))
+        c = 0
+        while c < min(len(last), len(cur)) and last[c] == cur[c]:
+            c += 1
+        if first and tuple(last[:len(cur)]) == tuple(cur):
+            c = len(cur) - 1
+        want = ['pop'] * (len(last) - c) + ['push ' + x for x in cur[c:]] + ['push SEG', 'pop']
+        outs = set()
+        for tr, e_ in res:
+            got = []
+            for k_, a_ in tr:
+                if k_ == 'pop':
+                    got.append('pop')
+                else:
+                    nm_, at_ = (a_ + (None, None))[:2]
+                    ident = dict(at_).get('id') if isinstance(at_, A.FrozenDict) else None
+                    got.append('push %s' % (ident if nm_ in ('loop', 'seg') and ident is not None else nm_))
+            outs.add((tuple(got), dict(e_).get('self.last_path')))
+        if outs != {(tuple(want), tuple(cur))} and len(bad) < 3:
+            o_ = sorted(outs, key=repr)[0] if outs else None
+            bad.append('after a segment in /%s, a segment %sin /%s: the writer does %s and remembers %s; expected %s and the new path'
+                       % ('/'.join(last), 'that starts its loop ' if first else '', '/'.join(cur), list(o_[0]) if o_ else None, o_[1] if o_ else None, want))
+    yield Ob('x12xml_simple:x12xml_simple.seg closes and opens exactly the loop elements between the previous path and this one', not bad, ctx.floc(fn),
+             '' if not bad else bad[0], note='%d path pairs' % len(CASES))
+
+class _XChild(object):
+    _sa_model = True
+
+    def __init__(self, cid, usage, subs=()):
+        self.id = cid
+        self.usage = usage
+        self.subs = tuple(subs)
+
+    def is_composite(self):
+        return bool(self.subs)
+
+    def is_element(self):
+        return not self.subs
+
+    def get_child_count(self):
+        return len(self.subs)
+
+    def get_child_node_by_idx(self, j):
+        return self.subs[j]
+
+    def __hash__(self):
+        return hash(('xchild', self.id))
+
+
+class _XVal(object):
+    _sa_model = True
+
+    def __init__(self, text, comps=None):
+        self.text = text
+        self.comps = tuple(_XVal(c) for c in comps) if comps is not None else None
+
+    def is_empty(self):
+        return self.text == '' if self.comps is None else all(c.text == '' for c in self.comps)
+
+    def get_value(self):
+        return self.text
+
+    def format(self, st=None):
+        return self.text
+
+    def __len__(self):
+        return len(self.comps) if self.comps is not None else 1
+
+    def __getitem__(self, j):
+        return self.comps[j] if self.comps is not None else self
+
+    def __eq__(self, o):
+        return (self.text == o) if isinstance(o, str) else (self is o)
+
+    def __hash__(self):
+        return hash(('xval', self.text, id(self)))
+
+
+class _XSeg(object):
+    _sa_model = True
+
+    def __init__(self, vals):
+        self.vals = vals
+
+    def __len__(self):
+        return len(self.vals)
+
+    def get(self, rd):
+        i = int(rd[-2:]) - 1
+        return self.vals[i] if i < len(self.vals) else None
+
+    def get_value(self, rd):
+        v = self.get(rd)
+        return None if v is None else v.text
+
+    def get_seg_id(self):
+        return 'SEG'
+
+    def __hash__(self):
+        return hash('xseg')
+
+
+class _XSegNode2(_XSegNode):
+    def __init__(self, kids):
+        _XSegNode.__init__(self, False)
+        self.kids = tuple(kids)
+
+    def get_child_count(self):
+        return len(self.kids)
+
+    def get_child_node_by_idx(self, i):
+        return self.kids[i]
+
+
+def r12_every_value_under_its_designator(ctx):
+    """the XML labels every element and component with its reference designator and leaves out only empty values and
+    elements the map marks not used: the element part of x12xml_simple.seg decided by constant propagation on a segment
+    SEG*A*X*B::D**E (a simple value, a value in a not-used element, a composite with an empty middle component, an
+    empty element, a value beyond the map's last element) against a map node of four children: written are, in order,
+    <seg id=SEG>, <ele id=SEG01>A, <comp id=SEG> with <subele id=SEG03-1>B .. for each component the map defines, and
+    the closing of composite and segment - nothing for the not-used, the empty and the unmapped position."""
+    from ..absint import traces, run_function, helper_oracles, NotClosedTest
+    fn = ctx.func('x12xml_simple', 'x12xml_simple.seg')
+    g = ctx.cfg(fn)
+    base = {}
+    for mod, cls in (('x12xml', 'x12xml'), ('x12xml_simple', 'x12xml_simple')):
+        for nm in ('_path_list', '_get_path_match_idx', '_get_loop_info', '_get_node_id', '_get_seg_info', '_get_comp_info', '_get_ele_info', '_get_subele_info'):
+            f_ = ctx.func(mod, cls + '.' + nm, required=False)
+            if f_ is not None:
+                def call(*a, _f=f_):
+                    return run_function(ctx.cfg(_f), _f, [None] + list(a), base)
+                base['self.' + nm] = call
+    import os as _os
+    base['commonprefix'] = base['os.path.commonprefix'] = lambda l: _os.path.commonprefix(list(l))
+    cur = ('ISA_LOOP', 'GS_LOOP', 'ST_LOOP')
+    kids = (_XChild('SEG01', 'R'), _XChild('SEG02', 'N'), _XChild('SEG03', 'S', (_XChild('SEG03-1', 'R'), _XChild('SEG03-2', 'S'), _XChild('SEG03-3', 'S'))), _XChild('SEG04', 'S'))
+    seg = _XSeg((_XVal('A'), _XVal('X'), _XVal('B::D', ('B', '', 'D')), _XVal(''), _XVal('E')))
+    funcs = helper_oracles(ctx, 'x12xml_simple', dict(base, pop_to_parent_loop=lambda n: _XLoop(cur)))
+
+    def key(c):
+        r, m = A.call_target(c)
+        return m if r == 'self.writer' and m in ('push', 'pop', 'elem', 'empty') else None
+    try:
+        res = traces(g, {'self.last_path': cur, 'seg_node': _XSegNode2(kids), 'seg_data': seg}, key, funcs)
+    except NotClosedTest as e:
+        raise AnalysisError('x12xml_simple.seg cannot be decided for the element part: %s' % e)
+
+    def show(tr):
+        out = []
+        for k_, a_ in tr:
+            if k_ == 'pop':
+                out.append('pop')
+            elif k_ == 'push':
+                out.append('push %s id=%s' % (a_[0], dict(a_[1]).get('id') if len(a_) > 1 and isinstance(a_[1], A.FrozenDict) else '?'))
+            else:
+                v_ = a_[1].text if len(a_) > 1 and isinstance(a_[1], _XVal) else (a_[1] if len(a_) > 1 else '?')
+                out.append('%s %s id=%s value=%r' % (k_, a_[0], dict(a_[2]).get('id') if len(a_) > 2 and isinstance(a_[2], A.FrozenDict) else '?', v_))
+        return out
+    want = ['push seg id=SEG', "elem ele id=SEG01 value='A'", 'push comp id=SEG', "elem subele id=SEG03-1 value='B'", "elem subele id=SEG03-2 value=''",
+            "elem subele id=SEG03-3 value='D'", 'pop', 'pop']
+    # (an empty component may be written empty or left out: it reads back the same)
+    want = [w for w in want if not w.endswith("value=''")]
+    outs = {tuple(x for x in show(tr) if not x.endswith("value=''")) for tr, _e in res}
+    ok = outs == {tuple(want)}
+    yield Ob('x12xml_simple:x12xml_simple.seg writes every used, non-empty value under its own designator', ok, ctx.floc(fn),
+             '' if ok else 'SEG*A*X*B::D**E against a node of four children (second not used, third a composite) is written as %s, expected %s'
+             % (sorted(outs)[0] if outs else None, want))
+
+
 RULES = [
     Rule('C08.R1', 'XML vocabulary agreement writer<->reader; every element id designates its own position', r1_vocabulary, floor=11000),
     Rule('C08.R2', 'content/attribute escaping: & first, <, quote char; every value passes its escape', r2_escaping, floor=9),
@@ -466,5 +737,8 @@ RULES = [
     Rule('C08.R9', 'shared with C11.R2: regenerated trailer counts are the true counts', r9_trailers_regenerated_with_true_counts, floor=10),
     Rule('C08.R8', 'shared with C11.R4: the ISA written back carries the writer\'s separators', r8_isa_carries_writer_delimiters, floor=1),
     Rule('C08.R7', 'shared with C18.R2: XML writer state is per instance (no mutated class/module-level object)', r7_writer_state_per_instance, floor=3),
+    Rule('C08.R10', 'shared with C01.R3/R5: the tokenizer loses or damages no segment at a buffer boundary', r10_shared_tokenizer, floor=6),
+    Rule('C08.R11', 'x12xml_simple.seg: loop elements closed / opened between consecutive segments spell the map path (constant propagation over path pairs)', r11_loop_elements_spell_the_path, floor=1),
+    Rule('C08.R12', 'x12xml_simple.seg: every used, non-empty element / component written under its designator, in order (constant propagation)', r12_every_value_under_its_designator, floor=1),
     Rule('C08.R6', 'DOCTYPE precedes the root element; the root is always opened', r6_prolog_order, floor=2),
 ]
